@@ -176,9 +176,25 @@ def run(ck):
         err = abs(vq) * Fraction(1, 2 ** (prec + 40))      # far above the final-rounding error at prec+64, single or composed
         return (vq - err, vq + err)
 
+    def quantum_pos(ctx):
+        """absolute position of the last kept digit for fixed-point style contexts, else None"""
+        mp, mn = ctx.round_params()
+        return mn if mp is None else None
+
     def expected(ctx, fn, args, p):
+        qp = quantum_pos(ctx)
         for extra in (40, 160, 600):
-            b = bracket(fn, args, p + extra)
+            need = p
+            if qp is not None:
+                # fixed-point target: the bracket must be much narrower than the quantum, whatever the magnitude
+                b0 = bracket(fn, args, 64)
+                if b0 is None:
+                    return None
+                mag = max(abs(b0[0]), abs(b0[1]))
+                if mag != 0:
+                    ev = mag.numerator.bit_length() - mag.denominator.bit_length()
+                    need = max(p, ev - qp + 8)
+            b = bracket(fn, args, need + extra)
             if b is None:
                 return None
             lo, hi = b
@@ -266,7 +282,11 @@ def run(ck):
             fctx.append(({'kind': 'mpfloat', 'p': p, 'rm': rm}, p))
     fctx += [({'kind': 'mpsfloat', 'p': 8, 'emin': -4, 'rm': 'RNE'}, 8), ({'kind': 'mpfixed', 'nmin': -12, 'rm': 'RNE'}, 40),
              ({'kind': 'mpfixed', 'nmin': -2, 'rm': 'RTZ'}, 40), ({'kind': 'mpfixed', 'nmin': 3, 'rm': 'RAZ'}, 40),
-             ({'kind': 'efloat', 'es': 5, 'nbits': 16, 'enable_inf': True, 'nk': 'IEEE_754', 'eoffset': 0, 'rm': 'RNE', 'ov': 'OVERFLOW'}, 11)]
+             ({'kind': 'efloat', 'es': 5, 'nbits': 16, 'enable_inf': True, 'nk': 'IEEE_754', 'eoffset': 0, 'rm': 'RNE', 'ov': 'OVERFLOW'}, 11),
+             # results far outside the range of a wrapping format: every digit down to the quantum matters
+             ({'kind': 'fixed', 'signed': True, 'scale': 0, 'nbits': 8, 'rm': 'RNE', 'ov': 'WRAP'}, 60),
+             ({'kind': 'fixed', 'signed': False, 'scale': -1, 'nbits': 4, 'rm': 'RTZ', 'ov': 'WRAP'}, 60),
+             ({'kind': 'smfixed', 'scale': 0, 'nbits': 6, 'rm': 'RNA', 'ov': 'WRAP'}, 60)]
     ncert = 0
     for fname, g in GM.items():
         for x in xs:
@@ -278,6 +298,20 @@ def run(ck):
                 st = compare(fname, f'{fname}({x}) under {d}', got, want)
                 if st == 'undecided':
                     undecided += 1
+                if d is fctx[0][0] and want is not None and not want.is_nar() and want.as_rational() != 0:
+                    # fixed-point targets placed relative to the magnitude of THIS result: the result has 1, 2 or 3
+                    # digits above the quantum (the two-pass precision selection's boundary cases)
+                    tv = abs(bracket(g, (x,), 80)[0])
+                    ev = tv.numerator.bit_length() - tv.denominator.bit_length()
+                    if Fraction(2) ** ev > tv:
+                        ev -= 1
+                    for j in (0, 1, 2, 3):
+                        for rmq in ('RNE', 'RNA', 'RTZ', 'RTP'):
+                            dq = {'kind': 'mpfixed', 'nmin': ev - 1 - j, 'rm': rmq}
+                            cq = mk_ctx(dq)
+                            gq = attempt(lambda: getattr(ops, fname)(fx, ctx=cq))
+                            wq = expected(cq, g, (x,), 40)
+                            compare(fname + '(quantum-relative)', f'{fname}({x}) under {dq}', gq, wq)
                 if (st == 'ok' and fname in COQ_FN and d['kind'] == 'mpfloat' and p in (3, 8, 24, 53) and d['rm'] in ('RNE', 'RTZ', 'RTP')
                         and not want.is_nar() and want.inexact and abs(x) <= 16 and ncert < (30 if not thorough else 900)
                         and rng.random() < (0.25 if not thorough else 0.6)):
